@@ -7,6 +7,11 @@ use crate::{
     next::NextChunk,
     ConcurrentIter, Next,
 };
+#[cfg(orx_concurrent_iter_verif)]
+use crate::verif::atomic::{self, AtomicBool};
+#[cfg(orx_concurrent_iter_verif)]
+use std::{cell::UnsafeCell, cmp::Ordering};
+#[cfg(not(orx_concurrent_iter_verif))]
 use std::{
     cell::UnsafeCell,
     cmp::Ordering,
